@@ -128,12 +128,14 @@ register('C12', [
     'rule groups assignment, relations, breaks; check_resource_consumption (HashMap-keyed); reload intervals, transit stops, clustering (commute/parking); CheckerContext::new and the job index (std HashMap); JSON parsing; the claim "accepts every solution the solver emits" (needs solver runs)',
 ])
 register('C14', [
-    'registry half only, as ONE inductive step from an ARBITRARY bookkeeping state: the actors are fixed objects, which of them is available is one symbolic Bool each (every subset of in-use vehicles in one execution); since the post-state is again a state of this family, the step covers acquire/release histories of any length',
-    'hash containers are association lists (keys compared by Arc identity / integer equality) with symbolic membership: hashing, bucket layout and iteration order of std HashMap/HashSet are not modelled; iteration visits entries in a fixed order',
-    'the random source of Registry::next answers any integer of the requested range (symbolic)',
+    'ONE inductive step from an ARBITRARY well-formed state per half; the post-state is again a state of the same family, so the step covers operation histories of any length over the stated sizes',
+    'tour half: closed/open tours of 0..2 (quick) / 0..3 (thorough) job activities; which task each activity serves is a symbolic choice among a single job, the two tasks of a multi job and another single job (each task at most once); insertion index (1..=job activities+1), removal index, removed job (incl. an absent one) and inserted task symbolic; Multi::roots is an environment answer',
+    'registry half: the actors are fixed objects, which of them is available is one symbolic Bool each (every subset of in-use vehicles in one execution); the random source of Registry::next answers any integer of the requested range (symbolic)',
+    'Vec / hash containers are sequences / association lists (keys compared by Arc identity / integer equality): hashing, bucket layout and iteration order of std HashMap/HashSet are not modelled',
 ], [
-    'the Tour half of the property (insert_at / insert_last / remove / remove_activity_at; attempted with Kani and dropped, DESIGN.md 8.1/10): the invariant is structural over a heap Vec<Activity> and a HashSet<Job>',
-    'Registry::new from a Fleet (group construction by the user-supplied key function), deep_slice with an arbitrary filter closure, RegistryContext::new (needs a GoalContext)',
+    'tours longer than the bound; a task occurring twice in one tour; insert_at outside 1..=job activities+1',
+    'Registry::new from a Fleet (group construction by the user-supplied key function), deep_slice with a filter other than the production one (membership in a set of kept actors), RegistryContext::new (needs a GoalContext)',
+    'the earlier Kani harnesses over Tour (kani/vrp-core/tour_proofs.rs) exceed memory and are not part of the check',
 ])
 register('C05', [
     'mechanism claim: the cache-computing functions are total functions of the tour alone (history independence proved per output) and equal the reference recomputation',
